@@ -45,8 +45,9 @@ claim("C02",
            "TransferTransformer, KMeansL1L2, TransformedTargetRegressor2 is executed with one exceptional path per call into a dependency / inner estimator; on "
            "EVERY exit (normal or exceptional) each hyper-parameter attribute is the same object/term as before, parameter objects received no set_params, "
            "no in-place write reached the caller's X, y, sample_weight; fit returns self; given estimators are cloned, never fitted, where the class promises "
-           "it. Bounded: get_params and byte snapshots around successful and failing fits (NaN, one row, inner estimator failing on k-th fit) on 18 configurations.",
-      note="In-repo steps constraint_kmeans, _fit_reglin, _fit_l1, clone_with_fitted_parameters are opaque (assumed not to touch hyper-parameters; may raise). "
+           "it. Bounded: get_params and byte snapshots around successful and failing fits (NaN, one row, inner estimator failing on k-th fit) on 19 configurations.",
+      note="KMeansL1L2._fit_l1 (the real loop over the n_init runs, string and array initialisation) is under the same frame contract; in-repo steps "
+           "constraint_kmeans, _fit_reglin, _kmeans_single_lloyd, clone_with_fitted_parameters are opaque (assumed not to touch hyper-parameters; may raise). "
            "Copies made inside scikit-learn are assumed. Remaining estimators only through the bounded stand-in.",
       technique="deductive verification: frame conditions on every exit path incl. exceptional ones (fault-forking symbolic execution), z3")
 claim("C03",
@@ -55,7 +56,8 @@ claim("C03",
            "included), no unseeded RandomState() is drawn from, an integer random_state never uses the global generator where documented. "
            "Bounded: fit(A);fit(B) vs fresh fit(B), two fits under one global seed, integer random_state under two global seeds on 18 configurations; "
            "PiecewiseClassifier with buckets missing a class for random_state in {None,0,1,7}.",
-      note="Same assumed contracts as C02. PiecewiseRegressor/Classifier.fit and DecisionTreeLogisticRegression.fit are covered by the bounded stand-in only "
+      note="Same assumed contracts as C02; KMeansL1L2._fit_l1 is executed (every fitted attribute overwritten, the seeds of the runs drawn from the "
+           "generator built from random_state). PiecewiseRegressor/Classifier.fit and DecisionTreeLogisticRegression.fit are covered by the bounded stand-in only "
            "for this property.",
       technique="deductive verification: stale-state frame conditions + RNG provenance tags on the symbolic trace, z3")
 claim("C15",
@@ -183,8 +185,13 @@ claim("C06",
            "Manhattan-nearest centre, stores those distances and returns their weighted sum as inertia (ghost Sum congruence). Bounded: all sampled "
            "multisets of 3,4,6 points on a 3x3 grid (duplicates, ties, n == k), k<=3, both init modes, float32/64, weights: fit succeeds, labels nearest, "
            "inertia, centres within the data range, predict, transform; L2 equality with KMeans (labels, centres, predict, transform exactly).",
-      note="_fit_l1 / _kmeans_single_lloyd / _centers_dense (medians, empty-cluster relocation, best run) are ASSUMED in the proof and covered by the bounded "
-           "stand-in only (two defects of that part were repaired). pairwise_distances_argmin_min / manhattan_distances are assumed contracts.",
+      note="Also proved: KMeansL1L2._fit_l1 (real loop over the runs) keeps labels_/cluster_centers_/inertia_/n_iter_ of ONE run, gives every run the caller's "
+           "data, weights, k, max_iter, init and a seed drawn from the generator seeded with random_state, writes no hyper-parameter; "
+           "_kmeans_single_lloyd (real loop, break, final E-step): 1 <= n_iter <= max_iter, and whenever the centres still moved in the last iteration "
+           "the E-step is run again on the RETURNED centres, so labels are Manhattan-nearest to them - when the last shift is exactly zero the labels rely on "
+           "the convergence argument (ghost flag, not proved; bounded). _init_centroids, _centers_dense (medians, relocation), _tolerance are ASSUMED; "
+           "centres within the data range is bounded only. pairwise_distances_argmin_min / manhattan_distances are assumed contracts. Bounded domain now "
+           "includes the same data in units of 1e-9.",
       technique="deductive verification: Trace clauses for delegation, arg-min postconditions over a ghost Manhattan distance; z3")
 claim("C09",
       text="Proof (Python side): PiecewiseTreeRegressor.predict dispatches on the criterion ('mselin' -> per-leaf regressions, otherwise the tree's own "
